@@ -420,19 +420,18 @@ class Connection:
         com_field_list = parse_com_field_list(self.client_charset, data)
         sql = com_field_list_to_show_statement(com_field_list)
         result = await self.query(sql=sql, query_attrs={})
-        columns = b"".join(
-            [
+        # One packet per column definition
+        async for row in aiterate(result.rows):
+            await self.stream.write(
                 make_column_definition_41(
                     server_charset=self.server_charset,
                     table=com_field_list.table,
                     name=row[0],
                     is_com_field_list=True,
                     default=row[4],
-                )
-                async for row in aiterate(result.rows)
-            ]
-        )
-        await self.stream.write(columns)
+                ),
+                drain=False,
+            )
         await self.stream.write(self.ok_or_eof())
 
     async def handle_query(self, data: bytes) -> None:
